@@ -35,7 +35,9 @@ SAllowed(s, e) ==
     [] e.ev = "req"        -> ~s.open /\ e.variant \in Variants
     [] e.ev = "auth_call"  -> /\ s.open
                               /\ CallOK(s.c, e.scheme)
-                              /\ e.k = s.c.out[e.scheme].k          \* the scripted outcome was returned
+                              /\ e.k = s.c.out[e.scheme].k          \* the outcome the credentials presented call for (scripted
+                                                                    \* authenticators: as scripted; real api-key authenticators:
+                                                                    \* decided by the key in the header / query of the request)
                               /\ CallScopesOK(s.c, Append(s.calls, e.scheme), Append(s.cscopes, e.scopes))
     [] e.ev = "authz_call" -> s.open /\ s.c.authz # "none" /\ s.authz = <<>>
     [] e.ev = "done"       -> s.open /\ ~e.panic /\ DoneOK(s.c, s.calls, s.authz, e)
@@ -46,6 +48,7 @@ SWhy(s, e) ==
     [] e.ev = "req"        -> "driver-protocol"
     [] e.ev = "auth_call"  -> IF s.open /\ ~CallOK(s.c, e.scheme) THEN "authenticator-consulted-that-is-not-required-or-not-registered"
                               ELSE IF s.open /\ e.k = s.c.out[e.scheme].k THEN "authenticator-handed-scopes-of-no-alternative-of-the-requested-operation"
+                              ELSE IF s.open THEN "scheme-outcome-differs-from-the-credentials-presented-in-the-request"
                               ELSE "driver-protocol"
     [] e.ev = "authz_call" -> IF s.c.authz = "none" THEN "driver-protocol" ELSE "authorizer-consulted-twice"
     [] e.ev = "done"       -> IF ~s.open THEN "driver-protocol" ELSE IF e.panic THEN "panic"
